@@ -432,70 +432,101 @@ func runC18(r *Rng, n int, replay string) {
 func runC18Isolation(firstID int) {
 	id := firstID
 	for _, mode := range []keyvalue.TransactionMode{keyvalue.TransactionReadOnly, keyvalue.TransactionReadWrite} {
-		for setsBefore := 1; setsBefore <= 2; setsBefore++ {
-			modeName := map[keyvalue.TransactionMode]string{keyvalue.TransactionReadOnly: "read-only", keyvalue.TransactionReadWrite: "read-write"}[mode]
-			c := &Case{ID: id, Kind: "MemTxn/isolation", Trivial: true}
-			id++
-			c.Cells = []string{"MemTxn/isolation/" + modeName}
-			st := mem.NewStoreForVerif()
-			a, err := keyvalue.TransactionOrSerial(st, keyvalue.TransactionOptions{Mode: keyvalue.TransactionReadWrite})
-			if err != nil {
-				panic(err)
-			}
-			a.Set(keyName(0), tagRec{1}, nil)
-			if setsBefore == 2 {
-				a.Set(keyName(1), tagRec{2}, nil)
-			}
-			type seenT struct {
-				v0, v1 int
-				ok     bool
-			}
-			done := make(chan seenT, 1)
-			go func() {
-				var out seenT
-				defer func() { _ = recover(); done <- out }()
-				b, err := keyvalue.TransactionOrSerial(st, keyvalue.TransactionOptions{Mode: mode})
+		for _, stale := range []string{"", "abort+commit", "commit+commit", "commit+abort", "abort+abort"} {
+			for setsBefore := 1; setsBefore <= 2; setsBefore++ {
+				modeName := map[keyvalue.TransactionMode]string{keyvalue.TransactionReadOnly: "read-only", keyvalue.TransactionReadWrite: "read-write"}[mode]
+				c := &Case{ID: id, Kind: "MemTxn/isolation", Trivial: true}
+				id++
+				c.Cells = []string{"MemTxn/isolation/" + modeName + "/" + stale}
+				st := mem.NewStoreForVerif()
+				// an earlier transaction Z that has ended once already, and is ended a second time while A is open
+				// ("however a transaction ends ... transactions never observe each other's partial effects")
+				var z keyvalue.Transaction
+				if stale != "" {
+					var err error
+					z, err = keyvalue.TransactionOrSerial(st, keyvalue.TransactionOptions{Mode: keyvalue.TransactionReadWrite})
+					if err != nil {
+						panic(err)
+					}
+					z.Get(keyName(2))
+					if strings.HasPrefix(stale, "abort") {
+						_ = z.Abort()
+					} else {
+						_, _ = z.Commit(context.Background())
+					}
+				}
+				a, err := keyvalue.TransactionOrSerial(st, keyvalue.TransactionOptions{Mode: keyvalue.TransactionReadWrite})
 				if err != nil {
-					return
+					panic(err)
 				}
-				b.Get(keyName(0))
-				b.Get(keyName(1))
-				rs, err := b.Commit(context.Background())
-				if err != nil || len(rs) != 2 {
-					return
-				}
-				out.v0, out.v1, out.ok = -1, -1, true
-				if rs[0].Err == nil {
-					out.v0 = recValue(rs[0].Record)
-				}
-				if rs[1].Err == nil {
-					out.v1 = recValue(rs[1].Record)
-				}
-			}()
-			desc := fmt.Sprintf("[MemTxn] transaction A (read-write) has made %d of its 2 Sets and is still open; a %s transaction B is started and reads both keys", setsBefore, modeName)
-			c.Text = []string{desc}
-			select {
-			case got := <-done:
-				c.fail(fmt.Sprintf("%s: B began and finished while A was live (B saw k0=%d k1=%d, ok=%v)", desc, got.v0, got.v1, got.ok), "MemTxn:isolation:"+modeName)
-				if setsBefore == 1 {
+				a.Set(keyName(0), tagRec{1}, nil)
+				if setsBefore == 2 {
 					a.Set(keyName(1), tagRec{2}, nil)
 				}
-				_, _ = a.Commit(context.Background())
-			case <-time.After(25 * time.Millisecond):
-				if setsBefore == 1 {
-					a.Set(keyName(1), tagRec{2}, nil)
+				if z != nil {
+					func() {
+						defer func() { _ = recover() }()
+						if strings.HasSuffix(stale, "commit") {
+							_, _ = z.Commit(context.Background())
+						} else {
+							_ = z.Abort()
+						}
+					}()
 				}
-				_, _ = a.Commit(context.Background())
+				type seenT struct {
+					v0, v1 int
+					ok     bool
+				}
+				done := make(chan seenT, 1)
+				go func() {
+					var out seenT
+					defer func() { _ = recover(); done <- out }()
+					b, err := keyvalue.TransactionOrSerial(st, keyvalue.TransactionOptions{Mode: mode})
+					if err != nil {
+						return
+					}
+					b.Get(keyName(0))
+					b.Get(keyName(1))
+					rs, err := b.Commit(context.Background())
+					if err != nil || len(rs) != 2 {
+						return
+					}
+					out.v0, out.v1, out.ok = -1, -1, true
+					if rs[0].Err == nil {
+						out.v0 = recValue(rs[0].Record)
+					}
+					if rs[1].Err == nil {
+						out.v1 = recValue(rs[1].Record)
+					}
+				}()
+				desc := fmt.Sprintf("[MemTxn] transaction A (read-write) has made %d of its 2 Sets and is still open; a %s transaction B is started and reads both keys", setsBefore, modeName)
+				if stale != "" {
+					desc = fmt.Sprintf("[MemTxn] transaction Z ended (%s) before A began and is ended again (%s) while A is open; ", strings.Split(stale, "+")[0], strings.Split(stale, "+")[1]) + desc[len("[MemTxn] "):]
+				}
+				c.Text = []string{desc}
 				select {
 				case got := <-done:
-					if !got.ok || got.v0 != 1 || got.v1 != 2 {
-						c.fail(fmt.Sprintf("%s: after A committed, B saw k0=%d k1=%d (ok=%v), expected 1 and 2", desc, got.v0, got.v1, got.ok), "MemTxn:isolation-after:"+modeName)
+					c.fail(fmt.Sprintf("%s: B began and finished while A was live (B saw k0=%d k1=%d, ok=%v)", desc, got.v0, got.v1, got.ok), "MemTxn:isolation:"+modeName)
+					if setsBefore == 1 {
+						a.Set(keyName(1), tagRec{2}, nil)
 					}
-				case <-time.After(3 * time.Second):
-					c.fail(desc+": B never began after A committed", "MemTxn:isolation-hang:"+modeName)
+					_, _ = a.Commit(context.Background())
+				case <-time.After(25 * time.Millisecond):
+					if setsBefore == 1 {
+						a.Set(keyName(1), tagRec{2}, nil)
+					}
+					_, _ = a.Commit(context.Background())
+					select {
+					case got := <-done:
+						if !got.ok || got.v0 != 1 || got.v1 != 2 {
+							c.fail(fmt.Sprintf("%s: after A committed, B saw k0=%d k1=%d (ok=%v), expected 1 and 2", desc, got.v0, got.v1, got.ok), "MemTxn:isolation-after:"+modeName)
+						}
+					case <-time.After(3 * time.Second):
+						c.fail(desc+": B never began after A committed", "MemTxn:isolation-hang:"+modeName)
+					}
 				}
+				emit(c)
 			}
-			emit(c)
 		}
 	}
 }
